@@ -1,0 +1,49 @@
+//go:build verif
+// +build verif
+
+package cluster
+
+// Contracts for the deductive verifier in /verif (govc).  Comment-only file,
+// compiled only under the build tag `verif`.
+
+//@ property C18
+
+//@ noeffect github.com/youzan/ZanRedisDB/cluster.CoordLog (*github.com/youzan/ZanRedisDB/cluster.PartitionMetaInfo).GetDesp (*github.com/youzan/ZanRedisDB/cluster.CoordErr).Error
+
+// isrCount: number of replicas not marked for removal = length of what GetISR returns.  GetISR is the
+// definition (its result length is a function of the node list and the key set of Removings);
+// the facts proved about it: nothing marked => the full list; every returned node is an unmarked replica.
+//@ spec isrCount(nodes []string, removings map[string]RemovingInfo) int
+
+//@ func (self *PartitionReplicaInfo) GetISR() []string
+//@   requires self != nil
+//@   ensures len(self.Removings) == 0 ==> sameSlice(result, self.RaftNodes)
+//@   ensures len(result) <= len(self.RaftNodes)
+//@   ensures forall k int :: 0 <= k && k < len(result) ==> !in(result[k], self.Removings) && (exists j int :: 0 <= j && j < len(self.RaftNodes) && self.RaftNodes[j] == result[k])
+//@ loop 1
+//@   invariant len(isr) <= iter && fresh(isr) && len(isr) >= 0
+//@   invariant forall k int :: 0 <= k && k < len(isr) ==> !in(isr[k], self.Removings) && (exists j int :: 0 <= j && j < len(self.RaftNodes) && self.RaftNodes[j] == isr[k])
+
+// isrQuorum: "a strict majority of the replication factor is unmarked" as computed by IsISRQuorum (a
+// function of the node list, the key set of Removings and the replication factor)
+//@ spec isrQuorum(nodes []string, removings map[string]RemovingInfo, replica int) bool
+//@ func (self *PartitionMetaInfo) IsISRQuorum() bool
+//@   requires self != nil
+//@   defines result == isrQuorum(self.RaftNodes, self.Removings, self.Replica)
+//@   ensures len(self.Removings) == 0 ==> (result <==> len(self.RaftNodes) > self.Replica / 2)
+
+// GetCopy is a deep copy: a new object whose maps and node list are new and equal in content
+//@ func (self *PartitionMetaInfo) GetCopy() *PartitionMetaInfo
+//@   trusted deep copy (DeepClone of both embedded structs: map-range copies)
+//@   requires self != nil
+//@   ensures result != nil && fresh(result) && result != self
+//@   ensures result.Name == self.Name && result.Partition == self.Partition && result.Replica == self.Replica && result.MaxRaftID == self.MaxRaftID && result.epoch == self.epoch
+//@   ensures fresh(result.RaftNodes) && bytesEq(result.RaftNodes, self.RaftNodes) && len(result.RaftNodes) == len(self.RaftNodes)
+//@   ensures result.RaftIDs != nil && fresh(result.RaftIDs) && (forall k string :: (in(k, result.RaftIDs) <==> in(k, self.RaftIDs)) && result.RaftIDs[k] == self.RaftIDs[k])
+//@   ensures result.Removings != nil && fresh(result.Removings) && len(result.Removings) == len(self.Removings) && (forall k string :: in(k, result.Removings) <==> in(k, self.Removings))
+
+//@ func (self *PartitionReplicaInfo) Epoch() EpochType
+//@   inline
+
+//@ func (self *NodeInfo) GetID() string
+//@   inline
